@@ -91,7 +91,7 @@ def stext(s, ind=0):
     if k == "printe":
         return pad + "print %s;" % etext(s[1])
     if k == "printh":
-        return pad + 'print "%s" error@1 ":" error@2;' % s[1]
+        return pad + 'print "%s" error@1 ":" (error@2.count() > 0);' % s[1]
     if k == "let":
         return pad + "%s = %s;" % (s[1], etext(s[2]))
     if k == "eval":
@@ -254,7 +254,7 @@ class Ref:
             self.out.append(self.fmt(self.ev(s[1], env, depth)))
         elif k == "printh":
             ce = self.cur_error
-            self.out.append(s[1] + (ce.name if ce else "") + ":" + (ce.msg if ce else ""))
+            self.out.append(s[1] + (ce.name if ce else "") + ":" + ("TRUE" if ce and ce.msg else "FALSE"))
         elif k == "let":
             env[s[1]] = self.ev(s[2], env, depth)
         elif k == "eval":
